@@ -213,6 +213,7 @@ type loopRun struct {
 	spec  *LoopSpec
 	pos   token.Pos
 	ghost map[string]Value // ghost variables visible to invariants ($i, $done, ...)
+	entry *State           // state at loop entry: old(x) in invariants
 }
 
 func (vc *VC) loopSpec(ord string) *LoopSpec {
@@ -232,6 +233,7 @@ func (vc *VC) checkInvariants(lr *loopRun, st *State, kind string) {
 	}
 	for i, inv := range lr.spec.Invariants {
 		env := vc.localEnv(st, lr.pos)
+		env.oldSt = lr.entry
 		for k, v := range lr.ghost {
 			env.vars[k] = v
 		}
@@ -247,6 +249,7 @@ func (vc *VC) checkInvariants(lr *loopRun, st *State, kind string) {
 func (vc *VC) assumeInvariants(lr *loopRun, st *State) {
 	for _, inv := range lr.spec.Invariants {
 		env := vc.localEnv(st, lr.pos)
+		env.oldSt = lr.entry
 		for k, v := range lr.ghost {
 			env.vars[k] = v
 		}
@@ -320,7 +323,7 @@ func (vc *VC) execFor(x *ast.ForStmt, st *State, label string) *State {
 			return nil
 		}
 	}
-	lr := &loopRun{ord: ord, spec: vc.loopSpec(ord), pos: x.Pos(), ghost: map[string]Value{}}
+	lr := &loopRun{ord: ord, spec: vc.loopSpec(ord), pos: x.Pos(), ghost: map[string]Value{}, entry: st.clone()}
 	vc.checkInvariants(lr, st, "inv-init")
 	mods := vc.modifiedVars(x.Body, x.Post, x.Cond)
 	head := st.clone()
@@ -352,7 +355,7 @@ func (vc *VC) execRange(x *ast.RangeStmt, st *State, label string) *State {
 	fr := vc.cur()
 	ord := fr.enterLoop()
 	defer fr.leaveLoop()
-	lr := &loopRun{ord: ord, spec: vc.loopSpec(ord), pos: x.Pos(), ghost: map[string]Value{}}
+	lr := &loopRun{ord: ord, spec: vc.loopSpec(ord), pos: x.Pos(), ghost: map[string]Value{}, entry: st.clone()}
 	xt := vc.typeOf(x.X)
 	// the range expression is evaluated once
 	var coll Value
